@@ -52,3 +52,8 @@ package mergeplan
 //@   nopanic nonil
 //@   pure
 //@   requires o != nil
+
+// callers in package index treat the planner as a black box (its result is arbitrary for them)
+//@ func Plan
+//@   props C14 C19 C06
+//@   opaque
